@@ -954,6 +954,9 @@ func fillByEvaluation(p *Prog, fn *ssa.Function) (detail string, decided, good b
 			if fr.fn != fn {
 				return
 			}
+			if os.Getenv("SC_DEBUG_FILL") != "" {
+				fmt.Fprintf(os.Stderr, "  %s calls %s %v\n", FnName(fn), FnName(callee), a)
+			}
 			vi := variadicIndex(callee)
 			if !isFactory(callee) || vi < 0 || vi >= len(a) {
 				return
